@@ -15,7 +15,7 @@ ASSUMPTIONS = [
     "histories also address the unchanged project through other spellings (../name from a sibling directory, a symlink alias), switch an untracked "
     "fail-flag file on and off, and exchange the contents of inputs that form one hashed Python value",
     "stream nodekinds: dependencies / products declared as Path, PathNode, plain UPath and UPath('file://…'), touch-only and identical-rewrite edits, "
-    "fixed and changing PYTHONHASHSEED (oracle only; finding F62 classified narrowly)",
+    "fixed and changing PYTHONHASHSEED (oracle only; findings F61 / F62 are repaired, their witnesses are replayed from corpus/)",
 ]
 EDITS = ["touch", "touch", "rewrite_same", "rewrite_same", "write", "revert", "bump", "revert_module", "tamper", "delete_product", "add_task", "flag", "swap"]
 CFGS = [{}, {}, {}, {"k": "task_t00x"}, {"k": "task_t01x or task_t02x"}, {"dry": True}, {"force": True}, {"sub": "?"}, {"sub": "?"}, {"via": "rel"}, {"via": "link"}]
